@@ -251,7 +251,7 @@ def kani_codegen(ov: Overlay, harness_names):
     rc, so, dt = sh(cmd, cwd=ov.tree, env=env, timeout=3600, logf=str(ov.root / "codegen.log"))
     txt = (ov.root / "codegen.log").read_text(errors="replace")
     if rc != 0:
-        raise Inconclusive("kani codegen failed (harness does not compile against this tree?):\n" + txt[-4000:])
+        raise Inconclusive("kani codegen failed (harness does not compile against this tree?):\n" + error_blocks(txt))
     log(f"kani codegen of {len(harness_names)} harness(es) in {dt:.0f}s")
     metas = list((ov.tree / "target" / "kani").rglob("*.kani-metadata.json"))
     table = {}
@@ -260,6 +260,21 @@ def kani_codegen(ov: Overlay, harness_names):
         for h in md.get("proof_harnesses", []):
             table[h["pretty_name"]] = h
     return table, dt
+
+
+def error_blocks(txt, limit=6000):
+    lines = txt.splitlines()
+    out = []
+    i = 0
+    while i < len(lines):
+        if lines[i].startswith("error"):
+            out.extend(lines[i:i + 14])
+            out.append("")
+            i += 14
+        else:
+            i += 1
+    res = "\n".join(out)
+    return res[:limit] if res.strip() else txt[-limit:]
 
 
 CBMC_BASE = ["--no-malloc-may-fail", "--no-undefined-shift-check", "--no-signed-overflow-check", "--nan-check",
